@@ -382,7 +382,9 @@ pub fn run_miri(prop: &str, ctx: &Ctx, from: u64, to: u64, shards: u64, merged: 
             .args(["+nightly", "miri", "run", "--offline", "-q", "--"])
             .args(["inproc", prop, ctx.tier.name(), &ctx.seed.to_string(), &a.to_string(), &b.to_string()])
             .env("NLV_FLAVOUR", "miri")
-            .env("MIRIFLAGS", "-Zmiri-disable-isolation")
+            // the reference interpreter of the harness leaks reference-counted cycles (cyclic arrays); only C04, which
+            // does not use it, lets Miri's leak checker speak
+            .env("MIRIFLAGS", if prop == "C04" { "-Zmiri-disable-isolation" } else { "-Zmiri-disable-isolation -Zmiri-ignore-leaks" })
             .env("CARGO_NET_OFFLINE", "true")
             .stdin(Stdio::null())
             .stdout(Stdio::piped())
